@@ -3,6 +3,7 @@
   harness produces identically from the real AST / real context.  Driver-only code.
 -/
 import GqlVerif.Model.Visitor
+import GqlVerif.Model.SchemaVisitor
 namespace Gql.Driver
 
 def rTy : Ty → String
@@ -63,5 +64,25 @@ def rSnap (sn : Snap) : String :=
   s!" | d={sn.dTy},{sn.dParent},{sn.dInp},{sn.dTyLit},{sn.dInpLit},{sn.dField}"
 
 def rTraceLine (e : Ev × Snap) : String := rEv e.1 ++ " | " ++ rSnap e.2
+
+def rSNode : SNode → String
+  | .document => "doc"
+  | .schemaDef d => s!"schema:{rOptName d.query},{rOptName d.mutation},{rOptName d.subscription}"
+  | .directiveDef d => s!"directive:{d.name}"
+  | .typeDef t => s!"type:{rTypeDef t}"
+  | .objectType t => s!"object:{t.name}"
+  | .objectField f o => s!"ofield:{f.name}@{o}"
+  | .interfaceType t => s!"interface:{t.name}"
+  | .interfaceField f o => s!"ifield:{f.name}@{o}"
+  | .scalarType t => s!"scalar:{t.name}"
+  | .enumType t => s!"enum:{t.name}"
+  | .enumValue v o => s!"evalue:{v}@{o}"
+  | .unionType t => s!"union:{t.name}"
+  | .inputObjectType t => s!"input:{t.name}"
+  | .inputField f o => s!"infield:{f.name}@{o}"
+
+def rSEv : SEv → String
+  | .enter n => "+" ++ rSNode n
+  | .leave n => "-" ++ rSNode n
 
 end Gql.Driver
